@@ -651,6 +651,38 @@ def cReadIndex (e : Endian) (v : List Nat) : Nat := nativeVal e (v.take 4)
 /-- `match_set->port_range.{port_start,port_end}` -/
 def cReadPortRange (e : Endian) (v : List Nat) : Nat × Nat := (nativeVal e (v.take 2), nativeVal e ((v.drop 2).take 2))
 
+/-! ### The hand-written key images follow the regenerated layouts -/
+
+/-- (offset, length in bytes) of a leaf of a record of a table -/
+def leafSpan (recs : List Rec) (r l : Name) : Option (Nat × Nat) :=
+  match findRec r recs with
+  | some rc => match findLeaf l rc.leaves with | some lf => some (lf.off, lf.bytes) | none => none
+  | none => none
+
+def recSize (recs : List Rec) (r : Name) : Option Nat := (findRec r recs).map (·.size)
+
+/-- The positions at which `goTuplesKey` / `cTuplesKey` / `cReverseKey` place the members (addresses at
+0 and 16, ports at 32 and 34, protocol at 36, 40 bytes) are the positions of the regenerated C and Go
+layouts; likewise prefix length at 0 and data at 4 of the 20-byte LPM key. If both sides move a member
+consistently, `layouts_agree` still holds but this check fails and the byte-level model must follow. -/
+def keyModelsFollowLayout : Bool :=
+  let c := Gen.cRecs
+  let g := goRecsFor n!"amd64"
+  leafSpan c n!"tuples_key" n!"sip.u6_addr8" == some (0, 16) && leafSpan c n!"tuples_key" n!"dip.u6_addr8" == some (16, 16)
+  && leafSpan c n!"tuples_key" n!"sport" == some (32, 2) && leafSpan c n!"tuples_key" n!"dport" == some (34, 2)
+  && leafSpan c n!"tuples_key" n!"l4proto" == some (36, 1) && recSize c n!"tuples_key" == some 40
+  && leafSpan g n!"stub.bpfTuplesKey" n!"Sip.U6Addr8" == some (0, 16) && leafSpan g n!"stub.bpfTuplesKey" n!"Dip.U6Addr8" == some (16, 16)
+  && leafSpan g n!"stub.bpfTuplesKey" n!"Sport" == some (32, 2) && leafSpan g n!"stub.bpfTuplesKey" n!"Dport" == some (34, 2)
+  && leafSpan g n!"stub.bpfTuplesKey" n!"L4proto" == some (36, 1) && recSize g n!"stub.bpfTuplesKey" == some 40
+  && leafSpan c n!"lpm_key" n!"prefixlen" == some (0, 4) && leafSpan c n!"lpm_key" n!"data" == some (4, 16)
+  && recSize c n!"lpm_key" == some 20
+  && leafSpan g n!"real._bpfLpmKey" n!"PrefixLen" == some (0, 4) && leafSpan g n!"real._bpfLpmKey" n!"Data" == some (4, 16)
+  && recSize g n!"real._bpfLpmKey" == some 20
+  && leafSpan c n!"match_set" n!"index" == some (0, 4) && leafSpan c n!"match_set" n!"port_range.port_start" == some (0, 2)
+  && leafSpan c n!"match_set" n!"port_range.port_end" == some (2, 2) && leafSpan g n!"stub.bpfMatchSet" n!"Value" == some (0, 16)
+  && (findMap n!"domain_routing_map" Gen.cMaps).map (·.keySize) == some 16
+  && (findMap n!"outbound_connectivity_map" Gen.cMaps).map (·.keySize) == some 4
+
 /-! ## 5. Decoding bytes through a layout table (used by the correspondence harness and to state
 what agreement of layouts means) -/
 
